@@ -461,3 +461,147 @@ Proof.
     apply in_map_iff in H2 as [[[? ?] ?] [E2 H2]]. apply in_flat_map in H2 as [Mj [H2 H3]]. apply in_map_iff in H3 as [? [E3 _]].
     cbn [fst] in *. inversion E1'; inversion E3; subst. inversion E1; inversion E2; subst. apply down_spec in H2. left. cbn. lia.
 Qed.
+
+(* ---------------------------------------------------------------- version strings *)
+Lemma to_nat_dec_dn n : to_nat_dec (dn n) = n.
+Proof. unfold to_nat_dec, dn. rewrite undec_dec. apply Nat2N.id. Qed.
+Lemma dn_cons n : exists c t, dn n = c :: t.
+Proof. destruct (dn n) eqn:E; [exfalso; exact (dn_nonnil n E) | eauto]. Qed.
+Definition not_digit_head (s : str) : bool := match s with [] => true | c :: _ => negb (is_digit c) end.
+(* _parse_glibc_version reads back major.minor whatever follows the minor (as long as it is not another digit) *)
+Lemma parse_glibc_render M m junk : not_digit_head junk = true -> parse_glibc_version (dn M ++ [46] ++ dn m ++ junk) = Some (M, m).
+Proof.
+  intros J. unfold parse_glibc_version. rewrite (span_digits_stop (dn M) ([46] ++ dn m ++ junk)); [|apply dn_digits|reflexivity].
+  destruct (dn_cons M) as (c & t & E). rewrite E at 1. cbn [app]. rewrite N.eqb_refl.
+  rewrite (span_digits_stop (dn m) junk); [|apply dn_digits|exact J].
+  destruct (dn_cons m) as (c' & t' & E'). rewrite E' at 1. cbv iota beta. now rewrite !to_nat_dec_dn.
+Qed.
+Lemma parse_glibc_reject s : not_digit_head s = true -> parse_glibc_version s = None.
+Proof. unfold parse_glibc_version. destruct s as [|c s]; [reflexivity|]. cbn [not_digit_head span]. intros H. apply negb_true_iff in H. now rewrite H. Qed.
+
+Definition ws_free (w : str) : Prop := forallb (fun c => negb (is_ws c)) w = true.
+Lemma wsplit_aux_word w : ws_free w -> forall cur rest, wsplit_aux cur (w ++ rest) = wsplit_aux (rev w ++ cur) rest.
+Proof.
+  unfold ws_free. induction w as [|c w IH]; intros H cur rest; [reflexivity|]. cbn [forallb] in H. apply andb_prop in H as [H1 H2].
+  apply negb_true_iff in H1. cbn [app wsplit_aux rev]. rewrite H1, IH by assumption. now rewrite <- app_assoc.
+Qed.
+Lemma wsplit_two a b : ws_free a -> ws_free b -> a <> [] -> b <> [] -> wsplit (a ++ [32] ++ b) = [a; b].
+Proof.
+  intros Ha Hb Na Nb. unfold wsplit. rewrite wsplit_aux_word by assumption. rewrite app_nil_r. cbn [app wsplit_aux].
+  change (is_ws 32) with true. cbv iota.
+  destruct (rev a) eqn:E; [apply (f_equal (@rev N)) in E; rewrite rev_involutive in E; contradiction|]. rewrite <- E, rev_involutive.
+  f_equal. rewrite <- (app_nil_r b), wsplit_aux_word by assumption. rewrite app_nil_r. cbn [wsplit_aux].
+  destruct (rev b) eqn:E'; [apply (f_equal (@rev N)) in E'; rewrite rev_involutive in E'; contradiction|]. now rewrite <- E', rev_involutive, app_nil_r.
+Qed.
+Lemma digit_not_ws c : is_digit c = true -> is_ws c = false.
+Proof.
+  unfold is_digit, is_ws, ws_table. intros H. apply andb_prop in H as [H1 H2]. apply N.leb_le in H1, H2. cbn [existsb].
+  repeat match goal with |- context [c =? ?k] => replace (c =? k) with false by (symmetry; apply N.eqb_neq; lia) end. reflexivity.
+Qed.
+Lemma ws_free_app a b : ws_free a -> ws_free b -> ws_free (a ++ b).
+Proof. unfold ws_free. intros. rewrite forallb_app. now apply andb_true_intro. Qed.
+Lemma ws_free_dn n : ws_free (dn n).
+Proof.
+  unfold ws_free. pose proof (dn_digits n) as H. induction (dn n) as [|c t IH]; [reflexivity|]. cbn [forallb] in *.
+  apply andb_prop in H as [H1 H2]. rewrite (digit_not_ws c H1), IH; auto.
+Qed.
+(* the whole glibc probe: os.confstr gives "<name> <major>.<minor><junk>", the version is read back *)
+Lemma glibc_probe name M m junk t : ws_free name -> name <> [] -> ws_free junk -> not_digit_head junk = true ->
+  get_glibc_version (CStr (name ++ [32] ++ dn M ++ [46] ++ dn m ++ junk)) t = Some (M, m).
+Proof.
+  intros Hn Nn Hj J. unfold get_glibc_version, glibc_version_string, glibc_confstr.
+  assert (W : ws_free (dn M ++ [46] ++ dn m ++ junk)).
+  { apply ws_free_app; [apply ws_free_dn|]. apply ws_free_app; [reflexivity|]. apply ws_free_app; [apply ws_free_dn|assumption]. }
+  assert (NE : dn M ++ [46] ++ dn m ++ junk <> []) by (destruct (dn_cons M) as (c & t' & E); rewrite E; discriminate).
+  rewrite wsplit_two by assumption. destruct (dn M ++ [46] ++ dn m ++ junk) eqn:E; [congruence|]. rewrite <- E.
+  now apply parse_glibc_render.
+Qed.
+(* ... and the fallbacks: a missing / failing / malformed confstr leaves the decision to the ctypes probe *)
+Lemma glibc_fallback c t : glibc_confstr c = None -> glibc_version_string c t = glibc_ctypes t.
+Proof. unfold glibc_version_string. now intros ->. Qed.
+Lemma glibc_confstr_fails : glibc_confstr CNone = None /\ glibc_confstr CRaise = None /\
+  forall s, (forall a b, wsplit s <> [a; b]) -> glibc_confstr (CStr s) = None.
+Proof.
+  repeat split. intros s H. unfold glibc_confstr. destruct (wsplit s) as [|a [|b [|c r]]] eqn:E; auto. exfalso. eapply H; eauto.
+Qed.
+
+(* musl loader banner *)
+Definition lb_free (w : str) : Prop := forallb (fun c => negb (is_linebreak c)) w = true.
+Definition edge_ok (s : str) : Prop := s <> [] /\ is_ws (hd 0 s) = false /\ is_ws (last s 0) = false.
+Lemma splitlines_aux_word w : lb_free w -> forall cur rest, splitlines_aux cur (w ++ rest) = splitlines_aux (rev w ++ cur) rest.
+Proof.
+  unfold lb_free. induction w as [|c w IH]; intros H cur rest; [reflexivity|]. cbn [forallb] in H. apply andb_prop in H as [H1 H2].
+  apply negb_true_iff in H1. cbn [app splitlines_aux rev]. rewrite H1, IH by assumption. now rewrite <- app_assoc.
+Qed.
+Lemma lstrip_id s : is_ws (hd 0 s) = false -> lstrip s = s.
+Proof. destruct s as [|c s]; [reflexivity|]. cbn [hd lstrip]. now intros ->. Qed.
+Lemma strip_id s : edge_ok s -> strip s = s.
+Proof.
+  intros (N & H1 & H2). unfold strip. rewrite (lstrip_id s H1).
+  rewrite (app_removelast_last 0 N) at 1. rewrite rev_app_distr. cbn [rev app]. rewrite lstrip_id by (cbn [hd]; exact H2).
+  cbn [rev]. rewrite rev_involutive. symmetry. now apply app_removelast_last.
+Qed.
+Lemma nonempty_edge s : edge_ok s -> nonempty s = true.
+Proof. intros (N & _). destruct s; [congruence | reflexivity]. Qed.
+Lemma musl_two_lines l0 l1 tail : lb_free l0 -> lb_free l1 -> edge_ok l0 -> edge_ok l1 -> (tail = [] \/ exists t, tail = 10 :: t) ->
+  exists more, filter nonempty (map strip (splitlines (l0 ++ [10] ++ l1 ++ tail))) = l0 :: l1 :: more.
+Proof.
+  intros F0 F1 E0 E1 T. unfold splitlines. rewrite splitlines_aux_word by assumption. rewrite app_nil_r. cbn [app splitlines_aux].
+  change (is_linebreak 10) with true. cbv iota. rewrite rev_involutive. cbn [map filter]. rewrite (strip_id l0 E0), (nonempty_edge l0 E0).
+  rewrite splitlines_aux_word by assumption. rewrite app_nil_r.
+  destruct T as [->|[t ->]].
+  - cbn [splitlines_aux]. destruct (rev l1) eqn:E; [apply (f_equal (@rev N)) in E; rewrite rev_involutive in E; destruct E1 as (N & _); contradiction|].
+    rewrite <- E, rev_involutive. cbn [map filter]. rewrite (strip_id l1 E1), (nonempty_edge l1 E1). eauto.
+  - cbn [splitlines_aux]. change (is_linebreak 10) with true. cbv iota. rewrite rev_involutive. cbn [map filter].
+    rewrite (strip_id l1 E1), (nonempty_edge l1 E1). eauto.
+Qed.
+Lemma digit_not_lb c : is_digit c = true -> is_linebreak c = false.
+Proof.
+  unfold is_digit, is_linebreak. intros H. apply andb_prop in H as [H1 H2]. apply N.leb_le in H1, H2. cbn [existsb].
+  repeat match goal with |- context [c =? ?k] => replace (c =? k) with false by (symmetry; apply N.eqb_neq; lia) end. reflexivity.
+Qed.
+Lemma lb_free_app a b : lb_free a -> lb_free b -> lb_free (a ++ b).
+Proof. unfold lb_free. intros. rewrite forallb_app. now apply andb_true_intro. Qed.
+Lemma lb_free_dn n : lb_free (dn n).
+Proof.
+  unfold lb_free. pose proof (dn_digits n) as H. induction (dn n) as [|c t IH]; [reflexivity|]. cbn [forallb] in *.
+  apply andb_prop in H as [H1 H2]. rewrite (digit_not_lb c H1), IH; auto.
+Qed.
+(* _parse_musl_version reads major.minor back from the loader's banner:
+     musl<a>  NEWLINE  Version <major>.<minor><sfx>  [NEWLINE anything] *)
+Lemma parse_musl_render a M m sfx tail :
+  lb_free a -> is_ws (last (s_musl ++ a) 0) = false ->
+  lb_free sfx -> not_digit_head sfx = true -> is_ws (last (s_Version_ ++ dn M ++ [46] ++ dn m ++ sfx) 0) = false ->
+  (tail = [] \/ exists t, tail = 10 :: t) ->
+  parse_musl_version ((s_musl ++ a) ++ [10] ++ (s_Version_ ++ dn M ++ [46] ++ dn m ++ sfx) ++ tail) = Some (M, m).
+Proof.
+  intros Fa La Fs Ds Ls T.
+  destruct (musl_two_lines (s_musl ++ a) (s_Version_ ++ dn M ++ [46] ++ dn m ++ sfx) tail) as [more E]; auto.
+  - apply lb_free_app; [reflexivity|]. apply lb_free_app; [apply lb_free_dn|]. apply lb_free_app; [reflexivity|]. apply lb_free_app; [apply lb_free_dn|assumption].
+  - repeat split; auto. discriminate.
+  - repeat split; auto. discriminate.
+  - unfold parse_musl_version. rewrite E. change (firstn 4 (s_musl ++ a)) with s_musl. rewrite streq_refl. cbn [negb].
+    change (starts_with s_Version_ (s_Version_ ++ dn M ++ [46] ++ dn m ++ sfx)) with true. cbn [negb].
+    change (skipn 8 (s_Version_ ++ dn M ++ [46] ++ dn m ++ sfx)) with (dn M ++ [46] ++ dn m ++ sfx).
+    pose proof (parse_glibc_render M m sfx Ds) as P. unfold parse_glibc_version in P. exact P.
+Qed.
+
+(* ---------------------------------------------------------------- _linux_platforms: architecture remapping and order *)
+Definition linux_archs (arch : str) : list str := if streq arch s_armv8l then [s_armv8l; s_armv7l] else [arch].
+Definition remap32 (arch : str) : str := if streq arch s_x86_64 then s_i686 else if streq arch s_aarch64 then s_armv8l else arch.
+Lemma starts_with_app p s : starts_with p (p ++ s) = true.
+Proof. induction p as [|c p IH]; [destruct s; reflexivity|]. cbn [app starts_with]. now rewrite N.eqb_refl, IH. Qed.
+Lemma linux_not_linux is32 plat e stderr : starts_with s_linux_ (normalize_string plat) = false ->
+  linux_platforms is32 plat e stderr = [normalize_string plat].
+Proof. intros H. unfold linux_platforms. now rewrite H. Qed.
+Lemma linux_shape is32 plat e stderr arch : normalize_string plat = s_linux_ ++ arch ->
+  linux_platforms is32 plat e stderr =
+  let archs := linux_archs (if is32 then remap32 arch else arch) in
+  manylinux_tags e archs ++ musllinux_tags (m_exe e) stderr archs ++ map (fun a => s_linux_ ++ a) archs.
+Proof.
+  intros H. unfold linux_platforms. rewrite H, starts_with_app. cbn [negb]. destruct is32.
+  - change (streq (s_linux_ ++ arch) s_linux_x86_64) with (streq arch s_x86_64).
+    change (streq (s_linux_ ++ arch) s_linux_aarch64) with (streq arch s_aarch64). unfold remap32.
+    destruct (streq arch s_x86_64); [reflexivity|]. destruct (streq arch s_aarch64); reflexivity.
+  - reflexivity.
+Qed.
